@@ -714,7 +714,12 @@ def run_c07(chk):
             pairs.append({"mode": "additive", "a": k["name"], "b": k["name"], "pa": 3, "pb": 4, "inimode": "base"})
     ps = run_pairs(chk, small, pairs, ["Additive", "Repeatable", "PairClean"], "c07", "C07")
     ts = threads_model(chk)
-    rc = realc_purity(chk, [k for k in sel if k["so"] and k["scalar"] == "float64"])
+    # a kernel that touches memory outside its arrays changes more than A (and would corrupt this process when it
+    # is called here): the guard-page pass runs first, in a child, and the kernels that died there are not loaded
+    realk = [k for k in sel if k["so"] and k["scalar"] == "float64"]
+    died: list = []
+    _protected(chk, realk, "guard", died)
+    rc = realc_purity(chk, [k for k in realk if k["name"] not in died])
     chk.add(traces_validated_against_impl=len(sel) + rc["kernels"], evaluations=st["runs"] + ps["pairs_done"] + rc["calls"],
             distinct_nontrivial=st["runs"] + ps["pairs_done"], kernels=len(sel), pair_runs=ps["pairs_done"],
             pair_runs_outside_value_model=ps["dz"], threads_model=ts, real_c=rc, build=bst,
@@ -996,12 +1001,13 @@ def realc_purity(chk, kernels):
     return st
 
 
-def _protected(chk, kernels, mode):
+def _protected(chk, kernels, mode, died=None):
     """Child process: inputs in read-only pages (mode ro) / every buffer against a PROT_NONE page (mode guard).
-    A crash of the child is a verdict about the kernel it names, not a machinery failure."""
+    A crash of the child is a verdict about the kernel it names, not a machinery failure.
+    died: optional list that receives the names of the kernels that crashed."""
     if not kernels:
         return 0
-    pid = "C07" if mode == "ro" else "C08"
+    pid = chk.pid if chk.pid in ("C07", "C08") else ("C07" if mode == "ro" else "C08")
     todo = []
     for k in kernels:
         inp = _real_inputs(k, chk.seed, "prot")
@@ -1041,6 +1047,8 @@ def _protected(chk, kernels, mode):
                       f"compiled kernel {k['label']} ({k['sym']}) died with signal {-p.returncode}: it {what}; "
                       f"entity_local_index={ini['e']} quadrature_permutation={ini['q']}",
                       {"kernel": k["label"], "entry": k["entry"], "signal": -p.returncode, "mode": mode, "pass": ps, "ini": ini, "ext": k["ext"]})
+        if died is not None:
+            died.append(kid)
         todo = [t for t in todo[[t["id"] for t in todo].index(kid) + 1:]]
     return calls
 
@@ -1357,4 +1365,21 @@ def run_unsupported(chk):
             chk.note(f"unsupported-family case {r['case']} was accepted and compiled ({r['cc_calls']} compiler calls) - not judged")
             chk.add(unsupported_cases_accepted=1)
     chk.add(unsupported_cases=summary, evaluations=len(summary), traces_validated_against_impl=len(summary))
+    # A construct of the unsupported family that *is* accepted must at least yield kernels that stay inside the
+    # extents of the UFCx contract (a cell expression that dereferences entity_local_index, ...): the accepted
+    # cases are run through Kernel.tla like the C08 corpus
+    acc = [r["case"] for r in results if r["outcome"] == "accepted" and r["case"] != "__control__"]
+    if acc:
+        for n in acc:
+            fn = kcorpus.UNSUPPORTED[n]
+            kcorpus._BUILDERS["accepted_" + n] = (lambda fn=fn: fn()[:2])
+            kcorpus.ENTRIES["accepted_" + n] = ("quick", "expr" if fn()[2] == "expr" else "form")
+        kernels, errors, _bst = build(chk, ["accepted_" + n for n in acc], nplanes=1)
+        _report_build_errors(chk, errors, "C19 accepted unsupported-family cases")
+        sel = _select(chk, kernels, 20000)
+        for k in sel:
+            k["runplanes"] = [1]
+            choose_inis(k, chk.seed, 25000, 2)
+        st = run_kernels(chk, sel, ["NoDeref", "InBounds"], "c19u")
+        chk.add(unsupported_accepted_kernels_run=len(sel), evaluations=st["runs"])
     return summary
